@@ -10,11 +10,19 @@ import (
 
 	"github.com/gotd/td/internal/verif/kit"
 	"github.com/gotd/td/internal/verif/lib/refformat"
+	"github.com/gotd/td/telegram/message/entity"
 )
 
 type witness struct {
 	API string   `json:"api"` // builder | styling
 	Ops []string `json:"ops"` // see refformat.Exec
+}
+
+// wReuse: several messages built one after the other on the same entity.Builder (Complete "returns
+// build result and resets builder"); every result is judged after the last message was completed.
+type wReuse struct {
+	API  string     `json:"api"`
+	Msgs [][]string `json:"messages"`
 }
 
 // judge is the oracle: the statement, entity by entity.
@@ -23,6 +31,43 @@ func judge(w witness) kit.Result {
 	if err != nil {
 		return kit.Bad("harness-error", "%v", err)
 	}
+	return judgeRun(r)
+}
+
+// judgeReuse builds all messages on one builder and then applies the statement to every result
+// as the caller holds it at that time.
+func judgeReuse(w wReuse) kit.Result {
+	b := &entity.Builder{}
+	var runs []*refformat.Run
+	base := 0
+	for _, ops := range w.Msgs {
+		r, err := refformat.ExecOn(b, ops, w.API, base)
+		if err != nil {
+			return kit.Bad("harness-error", "%v", err)
+		}
+		base += len(r.Pieces)
+		runs = append(runs, r)
+	}
+	var last kit.Result
+	for i, r := range runs {
+		res := judgeRun(r)
+		if res.Class != "" {
+			which := "earlier-result"
+			if i == len(runs)-1 {
+				which = "last-result"
+			}
+			res.Class = "reuse:" + which + ":" + res.Class
+			res.Msg = fmt.Sprintf("message %d of %d built on one builder %q (judged after the last Complete): %s", i+1, len(runs), w.Msgs, res.Msg)
+			return res
+		}
+		last = res
+	}
+	last.Outcome = "reuse/" + last.Outcome
+	return last
+}
+
+// judgeRun is the statement applied to one completed message.
+func judgeRun(r *refformat.Run) kit.Result {
 	res := kit.Result{Trivial: len(r.Pieces) == 0}
 	if !refformat.TrimOK(r.Full, r.Text) {
 		return kit.Bad("text-mismatch", "returned text %q is not the written text %q minus trailing white space", r.Text, r.Full)
@@ -118,7 +163,53 @@ func alphabet() []string {
 	for _, s := range twoStrings {
 		ops = append(ops, "G:"+s)
 	}
+	ops = append(ops, writerOps...)
 	return append(ops, "O", "A", "B", "S")
+}
+
+// the other writers of the builder: io.Writer (the one the HTML and Markdown parsers call), WriteRune, WriteByte
+var writerOps = []string{"Y:\U0001F600\u2003", "Y:a ", "R:\U0001F600\u2003", "Z:a "}
+
+// operations of the earlier messages of a reuse history: what they leave behind in the builder
+// (stale utf8 lengths, lastFormatIndex, entity capacity) is decided by the number of entities, the byte
+// offsets and whether the message was trimmed.
+var earlierOps = []string{"P:a", "P:\U0001F600\u2003", "F:a", "F:a ", "F:\U0001F600\u2003", "G:a ", "Y:\U0001F600\u2003", "O", "A", "S"}
+
+// boundary characters of the UTF-8 / UTF-16 encodings (1|2, 2|3, 3|4 bytes; last before and first after the
+// surrogate range; last BMP, first and last astral code point) and every kind of Unicode white space by
+// encoded size (ASCII controls, 2-byte U+0085 U+00A0, 3-byte U+1680 U+2028 U+3000) next to those of the alphabet.
+var (
+	boundaryChars = []string{"\u007f", "\u0080", "\u07ff", "\u0800", "\ud7ff", "\ue000", "\ufffd", "\uffff", "\U00010000", "\U0010FFFF"}
+	spaces        = []string{" ", "\n", "\t", "\r", "\v", "\f", "\u0085", "\u00a0", "\u1680", "\u2003", "\u2028", "\u3000"}
+)
+
+// boundaryCases: templates that put every boundary character before, inside and at the end of a formatted
+// piece, and every ordered pair of white space characters at the end of a nested last block.
+func boundaryCases(emit func([]string)) {
+	for _, x := range boundaryChars {
+		for _, y := range boundaryChars {
+			emit([]string{"P:" + x, "F:" + y})
+			emit([]string{"F:" + x + y, "Y:" + x, "R:" + y, "F:" + x})
+			emit([]string{"O", "Y:" + x, "F:" + y + " ", "A"})
+		}
+	}
+	for _, c := range append([]string{"a"}, boundaryChars...) {
+		for _, w1 := range spaces {
+			for _, w2 := range spaces {
+				emit([]string{"O", "F:" + c + w1 + w2, "A"})
+				emit([]string{"F:" + c + w1, "F:" + w2})
+			}
+		}
+	}
+}
+
+// sequences returns every valid operation sequence of length lo..hi.
+func sequences(alpha []string, lo, hi int) [][]string {
+	var out [][]string
+	for n := lo; n <= hi; n++ {
+		enumerate(alpha, n, func(o []string) { out = append(out, o) })
+	}
+	return out
 }
 
 // enumerate calls emit for every valid operation sequence of exactly the given length.
@@ -163,16 +254,20 @@ func enumerate(alpha []string, length int, emit func([]string)) {
 func main() {
 	kit.Main("C35", "exploration", func(c *kit.Ctx) {
 		fam := kit.NewFamily(c, "ops", judge)
+		reuse := kit.NewFamily(c, "reuse", judgeReuse)
 		if c.Replaying() {
 			return
 		}
 		alpha := alphabet()
 		bDepth, sDepth := 4, 3
+		maxMsgs, lastDepth := 2, 2
 		if c.Thorough() {
 			bDepth, sDepth = 5, 4
+			maxMsgs, lastDepth = 3, 3
 		}
 		c.Rule("Every valid sequence of 1..%d (API styling: 1..%d) builder operations over the %d-operation alphabet "+
-			"{Plain, Format with one kind} x strings %q, raw WriteString x %q, Format with two kinds x %q, Token open, "+
+			"{Plain, Format with one kind} x strings %q, raw WriteString x %q, Format with two kinds x %q, the other writers "+
+			"(Y = io.Writer Write as the HTML/Markdown parsers call it, R = WriteRune per rune, Z = WriteByte per ASCII byte) %q, Token open, "+
 			"Token.Apply of the innermost / outermost open token (nested, adjacent and overlapping formatting), Builder.ShrinkPreCode "+
 			"(called by the HTML/Markdown formatters after parsing; no Pre entity is ever present so it may not change any range), "+
 			"run against the real entity.Builder directly and through styling.Perform, then Builder.Complete. "+
@@ -180,8 +275,14 @@ func main() {
 			"has its own entity type so each returned entity identifies its piece. Oracle = the statement: returned text is "+
 			"the written text minus trailing white space only; each returned entity has exactly its piece's range clipped "+
 			"at the end of the returned text and lies within it (pieces left empty by trimming: dropped or zero-length accepted; "+
-			"missing entities are not judged). Sequences without formatted piece are trivial.",
-			bDepth, sDepth, len(alpha), allStrings, rawStrings, twoStrings)
+			"missing entities are not judged). Sequences without formatted piece are trivial. "+
+			"boundary (same family, both APIs): templates placing every ordered pair of the encoding-boundary characters %q before / inside / at the end of "+
+			"formatted pieces and through every writer, and every ordered pair of the white space characters %q at the end of a nested last block. "+
+			"reuse: %d..%d messages built one after the other on ONE builder (Complete resets it): earlier messages = every valid sequence of 0..2 operations "+
+			"over %q, last message = every valid sequence of 1..%d operations of the full alphabet (with three messages the middle one has 0..1 operations, the last 1..2), both APIs; "+
+			"the same oracle is applied to every result after the last Complete, i.e. to what the caller holds then (entity types differ "+
+			"between the messages, so an entity showing up in another message's result is an unknown entity).",
+			bDepth, sDepth, len(alpha), allStrings, rawStrings, twoStrings, writerOps, boundaryChars, spaces, 2, maxMsgs, earlierOps, lastDepth)
 		c.Assume("unicode/utf16 and unicode.IsSpace of the standard library define UTF-16 length and white space; invalid UTF-8 is out of scope (no UTF-16 length)")
 		c.Set("alphabet_ops", len(alpha))
 		c.Set("depth_builder", bDepth)
@@ -215,6 +316,43 @@ func main() {
 				c.NotExhaustive("time budget hit after API %s", api.name)
 				break
 			}
+		}
+		// boundary characters and white space classes (family "ops": same witness, same oracle)
+		for _, api := range []string{"builder", "styling"} {
+			boundaryCases(func(ops []string) { fam.Eval(witness{API: api, Ops: ops}) })
+		}
+		// reuse histories, shortest first
+		earlier := sequences(earlierOps, 0, 2)
+		c.Set("reuse_earlier_messages", len(earlier))
+		for _, api := range []string{"builder", "styling"} {
+			if c.Expired() {
+				c.NotExhaustive("time budget hit before the reuse histories of API %s", api)
+				break
+			}
+			lasts := sequences(alpha, 1, lastDepth)
+			var ws []wReuse
+			for _, l := range lasts {
+				for _, e := range earlier {
+					ws = append(ws, wReuse{API: api, Msgs: [][]string{e, l}})
+				}
+			}
+			if maxMsgs >= 3 {
+				mids := sequences(earlierOps, 0, 1)
+				for _, l := range sequences(alpha, 1, 2) {
+					for _, m := range mids {
+						for _, e := range earlier {
+							ws = append(ws, wReuse{API: api, Msgs: [][]string{e, m, l}})
+						}
+					}
+				}
+			}
+			// the first 4096 in a fixed order (minimal stable witnesses), the rest in parallel
+			head := min(len(ws), 4096)
+			for i := 0; i < head; i++ {
+				reuse.Eval(ws[i])
+			}
+			rest := ws[head:]
+			kit.Parallel(len(rest), runtime.NumCPU(), func(i int) { reuse.Eval(rest[i]) })
 		}
 	})
 }
